@@ -444,7 +444,7 @@ def run_property(mod, tier="quick", seed=0, replay=None):
         what = "regression of fixed finding " + origin[i][6:] if origin[i].startswith("fixed:") else rs["viol"][0][:160]
         violations.append(("violation", what, path))
 
-    for f in known:
+    for f in ([] if replay else known):
         if f["id"] not in reported_known:
             # listed finding whose witness no longer fails: a note, never an alarm
             if f.get("witness") is not None:
